@@ -1,9 +1,10 @@
 """Steered thread scheduling of Evaluator.evaluate_parallel (joblib threading backend).
 
-Every objective call and every store synchronisation blocks on a per-(kind, design) gate; a controller thread releases the
-gates in the order given by a schedule (a TLC-emitted behaviour of the Job model projected onto the controllable actions
-ReturnOk(d) -> ("call", d) and SyncBegin/Commit(d) -> ("sync", d)).  The trace, not the schedule, is authoritative: a
-schedule the real dispatcher cannot realise is finished in arrival order and the recorded trace is validated all the same.
+Every objective call and every store synchronisation of a design blocks on a per-(kind, design) gate.  A controller thread
+waits until every busy worker is parked at a gate (|blocked| = min(workers, designs not yet finished)), then releases the
+gate the schedule names next.  Schedules are TLC-emitted behaviours of the Job model projected onto the controllable
+actions: ReturnOk(d) -> ("call", d), SyncBegin..Commit(d) -> ("sync", d).  The recorded trace, not the schedule, is
+authoritative: if the real dispatcher cannot realise a schedule it is finished in arrival order (counted, never an alarm).
 """
 import threading
 
@@ -11,74 +12,63 @@ from .tlc import MachineryError
 
 
 class Gates:
-    def __init__(self, schedule, total, timeout=20.0):
+    def __init__(self, schedule, ndesigns, workers, timeout=20.0):
         self.schedule = list(schedule)          # list of (kind, k)
         self.cv = threading.Condition()
-        self.blocked = {}                       # (kind, k) -> Event
-        self.released = 0
-        self.total = total                      # number of gate passages expected
+        self.blocked = []                       # [(kind, k), Event] in arrival order (a key may occur twice if the code misbehaves)
+        self.finished = 0
+        self.n = ndesigns                       # designs that will actually be evaluated (not pre-evaluated ones)
+        self.w = workers
         self.timeout = timeout
         self.stalled = False
         self.realised = True
-        self.done = False
         self.order = []
 
+    # ---- called from worker threads ----
     def gate(self, kind, k):
         ev = threading.Event()
         with self.cv:
-            self.blocked[(kind, k)] = ev
+            self.blocked.append(((kind, k), ev))
             self.cv.notify_all()
-        if not ev.wait(self.timeout * 3):
+        if not ev.wait(self.timeout * 2):
             self.stalled = True
             raise MachineryError("gate timeout at %s %s" % (kind, k))
 
-    def finish(self):
+    def done(self, k):
         with self.cv:
-            self.done = True
+            self.finished += 1
             self.cv.notify_all()
+
+    # ---- controller thread ----
+    def _settled(self):
+        return self.finished >= self.n or len(self.blocked) == min(self.w, self.n - self.finished)
 
     def controller(self):
         pos = 0
         while True:
             with self.cv:
-                if self.done and not self.blocked:
+                if not self.cv.wait_for(self._settled, timeout=self.timeout):
+                    self.stalled = True
+                    for _, ev in self.blocked:
+                        ev.set()
                     return
-                want = self.schedule[pos] if pos < len(self.schedule) else None
-                if want is not None and want not in self.blocked:
-                    # wait for the wanted gate to be reached; if everything that can move is blocked elsewhere, give up on it
-                    ok = self.cv.wait_for(lambda: want in self.blocked or self.done, timeout=0.5)
-                    if not ok or (self.done and want not in self.blocked):
-                        if self.blocked:
-                            self.realised = False
-                            want = sorted(self.blocked)[0]
-                        elif self.done:
-                            return
-                        else:
-                            continue
+                if self.finished >= self.n:
+                    return
+                want = None
+                while pos < len(self.schedule):
+                    cand = self.schedule[pos]
+                    if any(key == cand for key, _ in self.blocked):
+                        want = cand
+                        pos += 1
+                        break
+                    if cand in self.order:      # already executed out of order
+                        pos += 1
+                        continue
+                    self.realised = False       # the dispatcher cannot reach this step now: fall back to arrival order
+                    break
                 if want is None:
-                    if not self.blocked:
-                        ok = self.cv.wait_for(lambda: self.blocked or self.done, timeout=self.timeout)
-                        if not ok:
-                            self.stalled = True
-                            return
-                        if not self.blocked:
-                            return
-                    want = sorted(self.blocked)[0]
-                ev = self.blocked.pop(want)
+                    want = sorted(key for key, _ in self.blocked)[0]
+                i = next(i for i, (key, _) in enumerate(self.blocked) if key == want)
+                ev = self.blocked.pop(i)[1]
                 self.order.append(want)
-                if pos < len(self.schedule) and self.schedule[pos] == want:
-                    pos += 1
-                else:
-                    # executed out of schedule order: drop it from the remaining schedule
-                    if want in self.schedule[pos:]:
-                        self.schedule.remove(want) if self.schedule.index(want) >= pos else None
             ev.set()
-            # let the released thread run on to its next gate (or to completion) before choosing again
-            with self.cv:
-                self.cv.wait_for(lambda: self._moved(want), timeout=2.0)
-
-    def _moved(self, want):
-        kind, k = want
-        if kind == "call":
-            return ("sync", k) in self.blocked or ("call", k) in self.blocked or self.done
-        return True
